@@ -448,6 +448,7 @@ fn cmd_worker(args: &[String]) -> i32 {
     let limit: u64 = need(args, "--limit").parse().expect("limit");
     let schedules: usize = need(args, "--schedules").parse().expect("schedules");
     let out = need(args, "--out").to_string();
+    let long = args.iter().any(|a| a == "--long");
     let mut pf = arg(args, "--progress").map(|p| std::fs::OpenOptions::new().create(true).write(true).truncate(true).open(p).expect("progress"));
     init_engine();
     let mut executions = 0u64;
@@ -465,7 +466,7 @@ fn cmd_worker(args: &[String]) -> i32 {
             let _ = f.write_at(format!("{i:020}\n").as_bytes(), 0);
         }
         let faults = i % 5 == 4;
-        let prog = conc::gen_program(seed, i, faults);
+        let prog = conc::gen_program_sized(seed, i, faults, long && i % 2 == 1);
         if !prog.fail_req.is_empty() {
             faulty_programs += 1;
         }
@@ -544,6 +545,7 @@ fn cmd_batch(args: &[String]) -> i32 {
         let child = Command::new(&exe)
             .args(["worker", "--seed", &seed.to_string(), "--offset", &k.to_string(), "--stride", &jobs.to_string()])
             .args(["--limit", &programs.to_string(), "--schedules", &schedules.to_string(), "--out", &out, "--progress", &prog])
+            .args(if thorough { vec!["--long"] } else { vec![] })
             .stdout(Stdio::null())
             .stderr(Stdio::piped())
             .spawn()
@@ -641,7 +643,7 @@ fn cmd_batch(args: &[String]) -> i32 {
     }
     for (idx, class, status, err) in &crashes {
         let path = format!("{replay_dir}/C04-schedsim-{seed}-{idx}-{class}.json");
-        let prog = conc::gen_program(seed, *idx, idx % 5 == 4);
+        let prog = conc::gen_program_sized(seed, *idx, idx % 5 == 4, thorough && idx % 2 == 1);
         let f = SchedReplay {
             property: "C04".into(),
             engine: "schedsim".into(),
